@@ -31,6 +31,14 @@ theorem nf_mono {J P B e1 e2 off : ℝ} {m1 m2 : ℤ} (hP : 2 * B < P) (h1 : |e1
   have hP0 : 0 < P := by linarith
   nlinarith [a.1, a.2, b.1, b.2]
 
+/-- `|t| ≤ 41` from the size of the unrounded count -/
+theorem t_range_of {x off div X : ℝ} {m : ℤ} (hm : |(m : ℝ) - x| ≤ 1 / 2) (hx1 : -X ≤ x) (hx2 : x ≤ X)
+    (ho0 : 0 ≤ off) (ho1 : off ≤ 3 / 4) (hd : 0 < div) (hX : X + 5 / 4 ≤ 41 * div) :
+    |((m : ℝ) + off) / div| ≤ 41 := by
+  have hr := abs_le.mp hm
+  rw [abs_div, abs_of_pos hd, div_le_iff₀ hd, abs_le]
+  constructor <;> linarith [hr.1, hr.2]
+
 /-! ### moon_phase -/
 
 set_option maxRecDepth 4000 in
@@ -98,8 +106,8 @@ theorem abs_phase_corr_le (k : ℝ) (s : String) (hk : |k / 1236.85| ≤ 41) : |
 def phaseOff (s : String) : ℝ :=
   if s = "first" then 0.25 else if s = "full" then 0.5 else if s = "last" then 0.75 else 0
 
-theorem phase_k_eq (year : ℝ) (s : String) :
-    phase_k year s = ((mround ((year - 2000.0) * 12.3685) : ℤ) : ℝ) + phaseOff s := by
+theorem phase_k_eq (jde : ℝ) (s : String) :
+    phase_k jde s = ((mround ((jde - 2451550.09766) / 29.530588861) : ℤ) : ℝ) + phaseOff s := by
   unfold phase_k phaseOff
   simp only [kround_eq]
   split_ifs <;> simp
@@ -108,15 +116,15 @@ theorem phaseOff_range (s : String) : 0 ≤ phaseOff s ∧ phaseOff s ≤ 3 / 4 
   unfold phaseOff; split_ifs <;> norm_num
 
 /-- years in [-2000, 4002] give `|t| ≤ 41` -/
-theorem phase_t_range {year : ℝ} (s : String) (h1 : -2000 ≤ year) (h2 : year ≤ 4002) :
-    |phase_k year s / 1236.85| ≤ 41 := by
+theorem phase_t_range {jde : ℝ} (s : String) (h1 : 990557.5 ≤ jde) (h2 : jde ≤ 3182395.5) :
+    |phase_k jde s / 1236.85| ≤ 41 := by
   rw [phase_k_eq]
-  have hr := abs_le.mp (mround_sub_le ((year - 2000.0) * 12.3685))
   have ho := phaseOff_range s
-  rw [abs_div, div_le_iff₀ (by norm_num)]
-  have e : |(1236.85 : ℝ)| = 1236.85 := by norm_num
-  rw [e, abs_le]
-  constructor <;> norm_num at hr ⊢ <;> nlinarith [hr.1, hr.2, ho.1, ho.2]
+  have hx1 : -50000 ≤ (jde - 2451550.09766) / 29.530588861 := by
+    rw [le_div_iff₀ (by norm_num)]; norm_num at h1 ⊢; linarith
+  have hx2 : (jde - 2451550.09766) / 29.530588861 ≤ 50000 := by
+    rw [div_le_iff₀ (by norm_num)]; norm_num at h2 ⊢; linarith
+  exact t_range_of (mround_sub_le _) hx1 hx2 ho.1 (by linarith [ho.2]) (by norm_num) (by norm_num)
 
 /-- the error part of the mean instant: `phase_mean k = J + P k + q(k)` -/
 def phase_q (k : ℝ) : ℝ :=
@@ -130,13 +138,13 @@ theorem abs_phase_q_le {k : ℝ} (hk : |k / 1236.85| ≤ 41) : |phase_q k| ≤ 2
   refine this.trans ?_
   norm_num [abs_of_pos, abs_of_neg]
 
-theorem moon_phase_raw_ok {s : String} (hs : s = "new" ∨ s = "first" ∨ s = "full" ∨ s = "last") (year : ℝ) :
-    moon_phase_raw year s = .ok (phase_mean (phase_k year s) + phase_corr (phase_k year s) s) := by
+theorem moon_phase_raw_ok {s : String} (hs : s = "new" ∨ s = "first" ∨ s = "full" ∨ s = "last") (jde : ℝ) :
+    moon_phase_raw jde s = .ok (phase_mean (phase_k jde s) + phase_corr (phase_k jde s) s) := by
   unfold moon_phase_raw phase_target_ok
   rcases hs with h | h | h | h <;> subst h <;> simp
 
-theorem moon_phase_raw_err {s : String} (hs : ¬ (s = "new" ∨ s = "first" ∨ s = "full" ∨ s = "last")) (year : ℝ) :
-    moon_phase_raw year s = .error .valueError := by
+theorem moon_phase_raw_err {s : String} (hs : ¬ (s = "new" ∨ s = "first" ∨ s = "full" ∨ s = "last")) (jde : ℝ) :
+    moon_phase_raw jde s = .error .valueError := by
   unfold moon_phase_raw phase_target_ok
   simp only [not_or] at hs
   simp [hs.1, hs.2.1, hs.2.2.1, hs.2.2.2]
@@ -163,8 +171,8 @@ theorem abs_apsis_corr_le (k : ℝ) (s : String) (hk : |k / 1325.55| ≤ 41) : |
 
 def apsisOff (s : String) : ℝ := if s = "apogee" then 0.5 else 0
 
-theorem apsis_k_eq (year : ℝ) (s : String) :
-    apsis_k year s = ((mround ((year - 1999.97) * 13.2555) : ℤ) : ℝ) + apsisOff s := by
+theorem apsis_k_eq (jde : ℝ) (s : String) :
+    apsis_k jde s = ((mround ((jde - 2451534.6698) / 27.55454989) : ℤ) : ℝ) + apsisOff s := by
   unfold apsis_k apsisOff
   simp only [kround_eq]
   split_ifs <;> simp
@@ -172,15 +180,15 @@ theorem apsis_k_eq (year : ℝ) (s : String) :
 theorem apsisOff_range (s : String) : 0 ≤ apsisOff s ∧ apsisOff s ≤ 1 / 2 := by
   unfold apsisOff; split_ifs <;> norm_num
 
-theorem apsis_t_range {year : ℝ} (s : String) (h1 : -2000 ≤ year) (h2 : year ≤ 4002) :
-    |apsis_k year s / 1325.55| ≤ 41 := by
+theorem apsis_t_range {jde : ℝ} (s : String) (h1 : 990557.5 ≤ jde) (h2 : jde ≤ 3182395.5) :
+    |apsis_k jde s / 1325.55| ≤ 41 := by
   rw [apsis_k_eq]
-  have hr := abs_le.mp (mround_sub_le ((year - 1999.97) * 13.2555))
   have ho := apsisOff_range s
-  rw [abs_div, div_le_iff₀ (by norm_num)]
-  have e : |(1325.55 : ℝ)| = 1325.55 := by norm_num
-  rw [e, abs_le]
-  constructor <;> norm_num at hr ⊢ <;> nlinarith [hr.1, hr.2, ho.1, ho.2]
+  have hx1 : -54000 ≤ (jde - 2451534.6698) / 27.55454989 := by
+    rw [le_div_iff₀ (by norm_num)]; norm_num at h1 ⊢; linarith
+  have hx2 : (jde - 2451534.6698) / 27.55454989 ≤ 54000 := by
+    rw [div_le_iff₀ (by norm_num)]; norm_num at h2 ⊢; linarith
+  exact t_range_of (mround_sub_le _) hx1 hx2 ho.1 (by linarith [ho.2]) (by norm_num) (by norm_num)
 
 def apsis_q (k : ℝ) : ℝ :=
   (-0.0006691 + (0.000001098 + 0.0000000052 * (k / 1325.55)) * (k / 1325.55)) * (k / 1325.55) * (k / 1325.55)
@@ -193,14 +201,14 @@ theorem abs_apsis_q_le {k : ℝ} (hk : |k / 1325.55| ≤ 41) : |apsis_q k| ≤ 1
   refine this.trans ?_
   norm_num [abs_of_pos, abs_of_neg]
 
-theorem moon_perigee_apogee_raw_ok {s : String} (hs : s = "perigee" ∨ s = "apogee") (year : ℝ) :
-    moon_perigee_apogee_raw year s =
-      .ok (apsis_mean (apsis_k year s) + apsis_corr (apsis_k year s) s, angle_dms00 (apsis_parallax (apsis_k year s) s)) := by
+theorem moon_perigee_apogee_raw_ok {s : String} (hs : s = "perigee" ∨ s = "apogee") (jde : ℝ) :
+    moon_perigee_apogee_raw jde s =
+      .ok (apsis_mean (apsis_k jde s) + apsis_corr (apsis_k jde s) s, angle_dms00 (apsis_parallax (apsis_k jde s) s)) := by
   unfold moon_perigee_apogee_raw apsis_target_ok
   rcases hs with h | h <;> subst h <;> simp
 
-theorem moon_perigee_apogee_raw_err {s : String} (hs : ¬ (s = "perigee" ∨ s = "apogee")) (year : ℝ) :
-    moon_perigee_apogee_raw year s = .error .valueError := by
+theorem moon_perigee_apogee_raw_err {s : String} (hs : ¬ (s = "perigee" ∨ s = "apogee")) (jde : ℝ) :
+    moon_perigee_apogee_raw jde s = .error .valueError := by
   unfold moon_perigee_apogee_raw apsis_target_ok
   simp only [not_or] at hs
   simp [hs.1, hs.2]
@@ -218,8 +226,8 @@ theorem abs_nodes_corr_le (k : ℝ) (hk : |k / 1342.23| ≤ 41) : |nodes_corr k|
 
 def nodesOff (s : String) : ℝ := if s = "descending" then 0.5 else 0
 
-theorem nodes_k_eq (year : ℝ) (s : String) :
-    nodes_k year s = ((mround ((year - 2000.05) * 13.4223) : ℤ) : ℝ) + nodesOff s := by
+theorem nodes_k_eq (jde : ℝ) (s : String) :
+    nodes_k jde s = ((mround ((jde - 2451565.1619) / 27.212220817) : ℤ) : ℝ) + nodesOff s := by
   unfold nodes_k nodesOff
   simp only [kround_eq]
   split_ifs <;> simp
@@ -227,15 +235,15 @@ theorem nodes_k_eq (year : ℝ) (s : String) :
 theorem nodesOff_range (s : String) : 0 ≤ nodesOff s ∧ nodesOff s ≤ 1 / 2 := by
   unfold nodesOff; split_ifs <;> norm_num
 
-theorem nodes_t_range {year : ℝ} (s : String) (h1 : -2000 ≤ year) (h2 : year ≤ 4002) :
-    |nodes_k year s / 1342.23| ≤ 41 := by
+theorem nodes_t_range {jde : ℝ} (s : String) (h1 : 990557.5 ≤ jde) (h2 : jde ≤ 3182395.5) :
+    |nodes_k jde s / 1342.23| ≤ 41 := by
   rw [nodes_k_eq]
-  have hr := abs_le.mp (mround_sub_le ((year - 2000.05) * 13.4223))
   have ho := nodesOff_range s
-  rw [abs_div, div_le_iff₀ (by norm_num)]
-  have e : |(1342.23 : ℝ)| = 1342.23 := by norm_num
-  rw [e, abs_le]
-  constructor <;> norm_num at hr ⊢ <;> nlinarith [hr.1, hr.2, ho.1, ho.2]
+  have hx1 : -54000 ≤ (jde - 2451565.1619) / 27.212220817 := by
+    rw [le_div_iff₀ (by norm_num)]; norm_num at h1 ⊢; linarith
+  have hx2 : (jde - 2451565.1619) / 27.212220817 ≤ 54000 := by
+    rw [div_le_iff₀ (by norm_num)]; norm_num at h2 ⊢; linarith
+  exact t_range_of (mround_sub_le _) hx1 hx2 ho.1 (by linarith [ho.2]) (by norm_num) (by norm_num)
 
 def nodes_q (k : ℝ) : ℝ :=
   (0.0002762 + (0.000000021 - 0.000000000088 * (k / 1342.23)) * (k / 1342.23)) * (k / 1342.23) * (k / 1342.23)
@@ -250,13 +258,13 @@ theorem abs_nodes_q_le {k : ℝ} (hk : |k / 1342.23| ≤ 41) : |nodes_q k| ≤ 4
   refine this.trans ?_
   norm_num [abs_of_pos, abs_of_neg]
 
-theorem moon_passage_nodes_raw_ok {s : String} (hs : s = "ascending" ∨ s = "descending") (year : ℝ) :
-    moon_passage_nodes_raw year s = .ok (nodes_mean (nodes_k year s) + nodes_corr (nodes_k year s)) := by
+theorem moon_passage_nodes_raw_ok {s : String} (hs : s = "ascending" ∨ s = "descending") (jde : ℝ) :
+    moon_passage_nodes_raw jde s = .ok (nodes_mean (nodes_k jde s) + nodes_corr (nodes_k jde s)) := by
   unfold moon_passage_nodes_raw nodes_target_ok
   rcases hs with h | h <;> subst h <;> simp
 
-theorem moon_passage_nodes_raw_err {s : String} (hs : ¬ (s = "ascending" ∨ s = "descending")) (year : ℝ) :
-    moon_passage_nodes_raw year s = .error .valueError := by
+theorem moon_passage_nodes_raw_err {s : String} (hs : ¬ (s = "ascending" ∨ s = "descending")) (jde : ℝ) :
+    moon_passage_nodes_raw jde s = .error .valueError := by
   unfold moon_passage_nodes_raw nodes_target_ok
   simp only [not_or] at hs
   simp [hs.1, hs.2]
@@ -285,24 +293,32 @@ theorem abs_decl_corr_le (k : ℝ) (s : String) (hk : |k / 1336.86| ≤ 41) : |d
   · exact (abs_evalTerms_le (abs_ecc_le_41 hk) hk _ _).trans tsum_decl_north
   · exact (abs_evalTerms_le (abs_ecc_le_41 hk) hk _ _).trans tsum_decl_south
 
-theorem decl_k_eq (year : ℝ) : decl_k year = ((mround ((year - 2000.03) * 13.3686) : ℤ) : ℝ) := rfl
-
-theorem decl_k_eq0 (year : ℝ) : decl_k year = ((mround ((year - 2000.03) * 13.3686) : ℤ) : ℝ) + 0 := by
-  rw [decl_k_eq, add_zero]
-
-theorem decl_t_range {year : ℝ} (h1 : -2000 ≤ year) (h2 : year ≤ 4002) :
-    |decl_k year / 1336.86| ≤ 41 := by
-  rw [decl_k_eq]
-  have hr := abs_le.mp (mround_sub_le ((year - 2000.03) * 13.3686))
-  rw [abs_div, div_le_iff₀ (by norm_num)]
-  have e : |(1336.86 : ℝ)| = 1336.86 := by norm_num
-  rw [e, abs_le]
-  constructor <;> norm_num at hr ⊢ <;> nlinarith [hr.1, hr.2]
-
-def decl_q (k : ℝ) : ℝ := (0.000119804 - 0.000000141 * (k / 1336.86)) * (k / 1336.86) * (k / 1336.86)
-
 /-- instant of the mean extreme for `k = 0` -/
 def declJ (s : String) : ℝ := if s = "northern" then 2451562.5897 else 2451548.9289
+
+theorem decl_k_eq (jde : ℝ) (s : String) :
+    decl_k jde s = ((mround ((jde - declJ s) / 27.321582247) : ℤ) : ℝ) := by
+  unfold decl_k declJ
+  split_ifs <;> rfl
+
+theorem decl_k_eq0 (jde : ℝ) (s : String) :
+    decl_k jde s = ((mround ((jde - declJ s) / 27.321582247) : ℤ) : ℝ) + 0 := by
+  rw [decl_k_eq, add_zero]
+
+theorem declJ_range (s : String) : 2451548 ≤ declJ s ∧ declJ s ≤ 2451563 := by
+  unfold declJ; split_ifs <;> norm_num
+
+theorem decl_t_range {jde : ℝ} (s : String) (h1 : 990557.5 ≤ jde) (h2 : jde ≤ 3182395.5) :
+    |decl_k jde s / 1336.86| ≤ 41 := by
+  rw [decl_k_eq0]
+  have hj := declJ_range s
+  have hx1 : -54000 ≤ (jde - declJ s) / 27.321582247 := by
+    rw [le_div_iff₀ (by norm_num)]; norm_num at h1 ⊢; linarith [hj.2]
+  have hx2 : (jde - declJ s) / 27.321582247 ≤ 54000 := by
+    rw [div_le_iff₀ (by norm_num)]; norm_num at h2 ⊢; linarith [hj.1]
+  exact t_range_of (mround_sub_le _) hx1 hx2 le_rfl (by norm_num) (by norm_num) (by norm_num)
+
+def decl_q (k : ℝ) : ℝ := (0.000119804 - 0.000000141 * (k / 1336.86)) * (k / 1336.86) * (k / 1336.86)
 
 theorem decl_mean_eq (k : ℝ) (s : String) : decl_mean k s = declJ s + 27.321582247 * k + decl_q k := by
   unfold decl_mean declJ decl_q
@@ -317,14 +333,14 @@ theorem abs_decl_q_le {k : ℝ} (hk : |k / 1336.86| ≤ 41) : |decl_q k| ≤ 212
   refine this.trans ?_
   norm_num [abs_of_pos, abs_of_neg]
 
-theorem moon_maximum_declination_raw_ok {s : String} (hs : s = "northern" ∨ s = "southern") (year : ℝ) :
-    moon_maximum_declination_raw year s =
-      .ok (decl_mean (decl_k year) s + decl_corr (decl_k year) s, decl_value (decl_k year) s) := by
+theorem moon_maximum_declination_raw_ok {s : String} (hs : s = "northern" ∨ s = "southern") (jde : ℝ) :
+    moon_maximum_declination_raw jde s =
+      .ok (decl_mean (decl_k jde s) s + decl_corr (decl_k jde s) s, decl_value (decl_k jde s) s) := by
   unfold moon_maximum_declination_raw decl_target_ok
   rcases hs with h | h <;> subst h <;> simp
 
-theorem moon_maximum_declination_raw_err {s : String} (hs : ¬ (s = "northern" ∨ s = "southern")) (year : ℝ) :
-    moon_maximum_declination_raw year s = .error .valueError := by
+theorem moon_maximum_declination_raw_err {s : String} (hs : ¬ (s = "northern" ∨ s = "southern")) (jde : ℝ) :
+    moon_maximum_declination_raw jde s = .error .valueError := by
   unfold moon_maximum_declination_raw decl_target_ok
   simp only [not_or] at hs
   simp [hs.1, hs.2]
@@ -348,11 +364,11 @@ theorem phaseC_le (s : String) : phaseC s ≤ 87 / 100 := by unfold phaseC; spli
 theorem abs_phase_e_le (s : String) {k : ℝ} (hk : |k / 1236.85| ≤ 41) : |phase_e s k| ≤ 272 / 1000 + phaseC s := by
   unfold phase_e
   exact (abs_add_le _ _).trans (add_le_add (abs_phase_q_le hk) (abs_phase_corr_le k s hk))
-theorem moon_phase_eq {s : String} (hs : s = "new" ∨ s = "first" ∨ s = "full" ∨ s = "last") (year : ℝ) :
-    moon_phase year s = .ok (phase_res s (phase_k year s)) := by
+theorem moon_phase_eq {s : String} (hs : s = "new" ∨ s = "first" ∨ s = "full" ∨ s = "last") (jde : ℝ) :
+    moon_phase jde s = .ok (phase_res s (phase_k jde s)) := by
   unfold moon_phase; rw [moon_phase_raw_ok hs]; rfl
-theorem moon_phase_err {s : String} (hs : ¬ (s = "new" ∨ s = "first" ∨ s = "full" ∨ s = "last")) (year : ℝ) :
-    moon_phase year s = .error .valueError := by
+theorem moon_phase_err {s : String} (hs : ¬ (s = "new" ∨ s = "first" ∨ s = "full" ∨ s = "last")) (jde : ℝ) :
+    moon_phase jde s = .error .valueError := by
   unfold moon_phase; rw [moon_phase_raw_err hs]
 
 def apsis_res (s : String) (k : ℝ) : ℝ := apsis_mean k + apsis_corr k s
@@ -363,12 +379,12 @@ theorem apsisC_le (s : String) : apsisC s ≤ 2883 / 1000 := by unfold apsisC; s
 theorem abs_apsis_e_le (s : String) {k : ℝ} (hk : |k / 1325.55| ≤ 41) : |apsis_e s k| ≤ 1216 / 1000 + apsisC s := by
   unfold apsis_e
   exact (abs_add_le _ _).trans (add_le_add (abs_apsis_q_le hk) (abs_apsis_corr_le k s hk))
-theorem moon_perigee_apogee_eq {s : String} (hs : s = "perigee" ∨ s = "apogee") (year : ℝ) :
-    moon_perigee_apogee year s =
-      .ok (apsis_res s (apsis_k year s), angle_dms00 (apsis_parallax (apsis_k year s) s)) := by
+theorem moon_perigee_apogee_eq {s : String} (hs : s = "perigee" ∨ s = "apogee") (jde : ℝ) :
+    moon_perigee_apogee jde s =
+      .ok (apsis_res s (apsis_k jde s), angle_dms00 (apsis_parallax (apsis_k jde s) s)) := by
   unfold moon_perigee_apogee; rw [moon_perigee_apogee_raw_ok hs]; rfl
-theorem moon_perigee_apogee_err {s : String} (hs : ¬ (s = "perigee" ∨ s = "apogee")) (year : ℝ) :
-    moon_perigee_apogee year s = .error .valueError := by
+theorem moon_perigee_apogee_err {s : String} (hs : ¬ (s = "perigee" ∨ s = "apogee")) (jde : ℝ) :
+    moon_perigee_apogee jde s = .error .valueError := by
   unfold moon_perigee_apogee; rw [moon_perigee_apogee_raw_err hs]
 
 def nodes_res (k : ℝ) : ℝ := nodes_mean k + nodes_corr k
@@ -378,11 +394,11 @@ theorem nodes_res_eq (k : ℝ) : nodes_res k = 2451565.1619 + 27.212220817 * k +
 theorem abs_nodes_e_le {k : ℝ} (hk : |k / 1342.23| ≤ 41) : |nodes_e k| ≤ 467 / 1000 + 775 / 1000 := by
   unfold nodes_e
   exact (abs_add_le _ _).trans (add_le_add (abs_nodes_q_le hk) (abs_nodes_corr_le k hk))
-theorem moon_passage_nodes_eq {s : String} (hs : s = "ascending" ∨ s = "descending") (year : ℝ) :
-    moon_passage_nodes year s = .ok (nodes_res (nodes_k year s)) := by
+theorem moon_passage_nodes_eq {s : String} (hs : s = "ascending" ∨ s = "descending") (jde : ℝ) :
+    moon_passage_nodes jde s = .ok (nodes_res (nodes_k jde s)) := by
   unfold moon_passage_nodes; rw [moon_passage_nodes_raw_ok hs]; rfl
-theorem moon_passage_nodes_err {s : String} (hs : ¬ (s = "ascending" ∨ s = "descending")) (year : ℝ) :
-    moon_passage_nodes year s = .error .valueError := by
+theorem moon_passage_nodes_err {s : String} (hs : ¬ (s = "ascending" ∨ s = "descending")) (jde : ℝ) :
+    moon_passage_nodes jde s = .error .valueError := by
   unfold moon_passage_nodes; rw [moon_passage_nodes_raw_err hs]
 
 def decl_res (s : String) (k : ℝ) : ℝ := decl_mean k s + decl_corr k s
@@ -393,11 +409,11 @@ theorem declC_le (s : String) : declC s ≤ 1875 / 1000 := by unfold declC; spli
 theorem abs_decl_e_le (s : String) {k : ℝ} (hk : |k / 1336.86| ≤ 41) : |decl_e s k| ≤ 212 / 1000 + declC s := by
   unfold decl_e
   exact (abs_add_le _ _).trans (add_le_add (abs_decl_q_le hk) (abs_decl_corr_le k s hk))
-theorem moon_maximum_declination_eq {s : String} (hs : s = "northern" ∨ s = "southern") (year : ℝ) :
-    moon_maximum_declination year s = .ok (decl_res s (decl_k year), decl_value (decl_k year) s) := by
+theorem moon_maximum_declination_eq {s : String} (hs : s = "northern" ∨ s = "southern") (jde : ℝ) :
+    moon_maximum_declination jde s = .ok (decl_res s (decl_k jde s), decl_value (decl_k jde s) s) := by
   unfold moon_maximum_declination; rw [moon_maximum_declination_raw_ok hs]; rfl
-theorem moon_maximum_declination_err {s : String} (hs : ¬ (s = "northern" ∨ s = "southern")) (year : ℝ) :
-    moon_maximum_declination year s = .error .valueError := by
+theorem moon_maximum_declination_err {s : String} (hs : ¬ (s = "northern" ∨ s = "southern")) (jde : ℝ) :
+    moon_maximum_declination jde s = .error .valueError := by
   unfold moon_maximum_declination; rw [moon_maximum_declination_raw_err hs]
 
 end Pymeeus.GenR.MoonM
